@@ -204,6 +204,7 @@ func RunC05(c *Ctx, r *Report) {
 	// a reference-built payload of type code K decodes to the payload type whose Type() is K
 	c.bijectionRule(r, prefix+"dispatch.ike", c.Method("message", "IKEPayloadContainer", "Decode"), "message", "IKEPayload", "Type", 16)
 	c.bijectionRule(r, prefix+"dispatch.eap", c.Method("eap", "EAP", "Unmarshal"), "eap", "EapTypeData", "Type", 5)
+	c.assignedNumbersRule(r, prefix+"assigned-numbers", "message", "eap")
 	// constants, markers, reserved
 	ruleK := prefix + "constants-and-reserved"
 	r.Rule(ruleK, "the only wire bits the encoder sets to 1 by constant are the type octets of EAP methods and the 'more substructures follow' markers (2 for proposals, 3 for transforms, under 'not last'); reserved fields and the critical bit are never written", 20)
